@@ -352,11 +352,45 @@ func (vc *VC) subFun(structT types.Type, idx int) string {
 	return n
 }
 
+// valueStruct: struct types stored as whole values inside their parent object
+// (no method has a pointer receiver, so their address never needs to be a
+// first-class pointer).  Everything else is a sub-object with its own reference.
+func valueStruct(t types.Type) bool {
+	t = types.Unalias(t)
+	if _, ok := isStruct(t); !ok {
+		return false
+	}
+	if n, ok := t.(*types.Named); ok {
+		if n.Obj().Pkg() != nil && n.Obj().Pkg().Path() == "time" && n.Obj().Name() == "Time" {
+			return true
+		}
+		for i := 0; i < n.NumMethods(); i++ {
+			sig := n.Method(i).Type().(*types.Signature)
+			if _, isPtr := sig.Recv().Type().(*types.Pointer); isPtr {
+				return false
+			}
+		}
+		s, _ := isStruct(t)
+		for i := 0; i < s.NumFields(); i++ {
+			if _, ok := isStruct(s.Field(i).Type()); ok && !valueStruct(s.Field(i).Type()) {
+				return false
+			}
+		}
+		return true
+	}
+	return false
+}
+
+func subObject(t types.Type) bool {
+	_, ok := isStruct(t)
+	return ok && !valueStruct(t)
+}
+
 // readField reads field idx of the struct object at ref.
 func (vc *VC) readField(st *State, ref string, structT types.Type, idx int) Term {
 	s, _ := isStruct(structT)
 	ft := s.Field(idx).Type()
-	if _, ok := isStruct(ft); ok {
+	if subObject(ft) {
 		return vc.loadStruct(st, sx(vc.subFun(structT, idx), ref), ft)
 	}
 	name, sort, _ := vc.fieldVar(structT, idx)
@@ -366,7 +400,7 @@ func (vc *VC) readField(st *State, ref string, structT types.Type, idx int) Term
 func (vc *VC) writeField(st *State, ref string, structT types.Type, idx int, val string) {
 	s, _ := isStruct(structT)
 	ft := s.Field(idx).Type()
-	if _, ok := isStruct(ft); ok {
+	if subObject(ft) {
 		vc.storeStruct(st, sx(vc.subFun(structT, idx), ref), ft, val)
 		return
 	}
@@ -435,7 +469,7 @@ func (vc *VC) load(st *State, p Term) Term {
 	if l := p.Loc; l != nil {
 		switch l.Kind {
 		case locField:
-			return vc.readField(st, l.Base.S, l.Struct, l.Field)
+			return vc.subValue(vc.readField(st, l.Base.S, l.Struct, l.Field), l)
 		case locElem:
 			v := vc.elemRead(st, l.Base.S, l.Idx.S, l.ElemT)
 			return vc.subValue(v, l)
@@ -451,7 +485,7 @@ func (vc *VC) load(st *State, p Term) Term {
 			}
 		}
 	}
-	if _, ok := isStruct(elem); ok {
+	if subObject(elem) {
 		return vc.loadStruct(st, p.S, elem)
 	}
 	name, sort := vc.cellVar(elem)
@@ -499,7 +533,12 @@ func (vc *VC) store(st *State, p Term, val Term) {
 	if l := p.Loc; l != nil {
 		switch l.Kind {
 		case locField:
-			vc.writeField(st, l.Base.S, l.Struct, l.Field, val.S)
+			v := val.S
+			if len(l.Sub) > 0 {
+				whole := vc.readField(st, l.Base.S, l.Struct, l.Field)
+				v = vc.updateSub(whole.S, l, 0, val.S)
+			}
+			vc.writeField(st, l.Base.S, l.Struct, l.Field, v)
 			return
 		case locElem:
 			v := val.S
@@ -527,7 +566,7 @@ func (vc *VC) store(st *State, p Term, val Term) {
 			}
 		}
 	}
-	if _, ok := isStruct(elem); ok {
+	if subObject(elem) {
 		vc.storeStruct(st, p.S, elem, val.S)
 		return
 	}
@@ -550,10 +589,10 @@ func (vc *VC) allocRef(prefix string) string {
 
 // zeroInit stores the zero value into a freshly allocated object of type t.
 func (vc *VC) zeroInit(st *State, ref string, t types.Type) {
-	if s, ok := isStruct(t); ok {
+	if s, ok := isStruct(t); ok && subObject(t) {
 		for i := 0; i < s.NumFields(); i++ {
 			ft := s.Field(i).Type()
-			if _, ok := isStruct(ft); ok {
+			if subObject(ft) {
 				vc.zeroInit(st, sx(vc.subFun(t, i), ref), ft)
 				continue
 			}
